@@ -58,7 +58,8 @@ CHECKS = {
                       {'module': 'worlds.fs.copy', 'quick': 4000, 'thorough': 30000, 'seed_offset': 40_000_000,
                        'params': {'sema_oracle': True}}],
         'expected_probes': ['cancel_waiter', 'exit_by_exception', 'cancel_granted_not_yet_resumed',
-                            'copier_semaphore_tracked'],
+                            'copier_semaphore_tracked', 'copier_semaphore_queued',
+                            'copier_semaphore_queued_acquire_cancelled'],
     },
 }
 
